@@ -111,7 +111,8 @@ IsF4 == /\ Failing \cap {"C07_Charge", "C07_RequestEscrow"} # {}
         /\ C07_Charge_ModF4(pre, ev, st) /\ C07_RequestEscrow_ModF4(st, gh)
 IsF21 == "C08_Schedule" \in Failing /\ C08_Schedule_ModF21(pre, ev, st, gpre)
 (* a record, so that known-finding entries can match on "why.f4" etc. *)
-WhyOf == [f4 |-> IsF4, f21 |-> IsF21, spec |-> Apply(pre, ev).why]
+IsF36 == "C07_OwnerTally" \in Failing /\ NONE \in DOMAIN st.ownerEarned /\ C07_OwnerTally_ModF36(st)
+WhyOf == [f4 |-> IsF4, f21 |-> IsF21, f36 |-> IsF36, spec |-> Apply(pre, ev).why]
 
 (* Evaluated by TLC in every state; always TRUE, reports as a side effect *)
 Monitor == Failing = {} \/ PrintT(<<"CLAUSE-FAIL", l - 1, Failing, WhyOf>>)
